@@ -1,8 +1,14 @@
-(** C14, program-level supplement: the table of file-modifying calls in the
-    anchored files (generated into Gen/Writers.v by tools/c14_writers.py) is
-    judged by [writer_ok]: a call is fine when it is one of the rename-based
-    writers (renameio / renameio/maybe / aghrenameio and the methods of their
-    pending file) or an explicitly listed exception.  No proofs here. *)
+(** C14, program-level supplement: the table of calls that create, truncate,
+    write, rename or remove a path in the non-test, linux-built files of the
+    packages owning the three kinds of file (generated into Gen/Writers.v by
+    tools/c14writers, go/ast) is judged by [writer_ok]: a row is fine when it is
+    a rename-based writer (renameio / renameio/maybe / aghrenameio and the
+    methods of their pending file), an explicitly listed exception that DOES
+    concern one of the three kinds, or explicitly listed as concerning some
+    other file.  Everything else, in particular anything the scanner could not
+    resolve, fails.  Each listed entry also bounds how many such calls its
+    function may contain, so a second os.Remove slipped into a function that
+    already has an excused one is noticed.  No proofs here. *)
 From Coq Require Import List String NArith Bool.
 Import ListNotations.
 Local Open Scope string_scope.
@@ -12,34 +18,75 @@ Inductive wkind :=
   | KPendingMethod   (* CloseAtomicallyReplace / CloseReplace / Cleanup of a pending file *)
   | KWriteFile       (* os.WriteFile, ioutil.WriteFile *)
   | KCreate          (* os.Create, os.CreateTemp, ioutil.TempFile *)
-  | KOpenWrite       (* os.OpenFile with a write/create/truncate/append flag *)
+  | KOpenWrite       (* os.OpenFile with a write/create/truncate/append or non-literal flag *)
   | KRename          (* os.Rename *)
   | KRemove          (* os.Remove, os.RemoveAll *)
   | KTruncate        (* os.Truncate, File.Truncate *)
-  | KOther.          (* os.Link, os.Symlink, a missing anchored file *)
+  | KMkdir           (* os.Mkdir, MkdirAll, MkdirTemp, ioutil.TempDir *)
+  | KOther           (* os.Link, os.Symlink, bbolt.Open, a lumberjack.Logger literal *)
+  | KUnresolved.     (* missing package, parse error, dot import *)
 
 Record wcall := mkw { w_file : string; w_func : string; w_callee : string; w_kind : wkind; w_line : N }.
 
 Definition rename_based (w : wcall) : bool :=
   match w_kind w with KRenameio | KPendingMethod => true | _ => false end.
 
-(** Exceptions: (file, enclosing function, callee, reason).  None of them
-    writes or replaces one of the three saved files. *)
-Definition exceptions : list (string * string * string * string) := [
-  ("internal/filtering/filter.go", "refreshFiltersIntl", "os.Remove",
-   "removes the obsolete <id>.txt.old left by versions that kept a backup copy; never the list file itself");
-  ("internal/configmigrate/v1.go", "migrateTo1", "os.Remove",
+(** (file, enclosing function, callee, max. number of such calls, reason) *)
+Definition entry := (string * string * string * N * string)%type.
+
+(** Exceptions that concern the configuration file, the lease database or a
+    filter-list file.  None of them writes content. *)
+Definition exceptions : list entry := [
+  ("internal/filtering/filter.go", "refreshFiltersIntl", "os.Remove", 1%N,
+   "removes the <id>.txt.old of a list that was just refreshed (left by handleFilteringRemoveURL or by old versions); never the list file itself");
+  ("internal/filtering/http.go", "handleFilteringRemoveURL", "os.Rename", 1%N,
+   "the user deletes a list: its file is renamed to <id>.txt.old after the list was found under filtersMu and before it is dropped from the configuration; one atomic rename, content untouched, the path is meant to disappear");
+  ("internal/dhcpd/http_unix.go", "handleReset", "os.Remove", 1%N,
+   "DHCP reset requested by the user: the servers are stopped, then leases.json is deleted on purpose; an absent file is the valid empty table for dbLoad");
+  ("internal/dhcpd/migrate.go", "migrateDB", "os.Remove", 1%N,
+   "deletes the legacy leases.db only after leases.json has been written through writeDB (rename-based)");
+  ("internal/configmigrate/v1.go", "migrateTo1", "os.Remove", 1%N,
    "schema 0->1 deletes dnsfilter.txt, which is no longer used; the configuration file is not touched");
-  ("internal/dhcpd/migrate.go", "migrateDB", "os.Remove",
-   "deletes the legacy leases.db only after leases.json has been written through writeDB (rename-based)")
+  ("internal/configmigrate/v2.go", "migrateTo2", "os.Remove", 1%N,
+   "schema 1->2 deletes Corefile, which is no longer used; the configuration file is not touched")
 ].
 
-Definition excepted (w : wcall) : bool :=
-  existsb (fun e => match e with (f, fn, c, _) =>
-             String.eqb f (w_file w) && String.eqb fn (w_func w) && String.eqb c (w_callee w) end)
-          exceptions.
+(** Calls that concern other files. *)
+Definition other_files : list entry := [
+  ("internal/home/auth.go", "InitAuth", "bbolt.Open", 1%N,
+   "sessions.db, a bbolt database with its own copy-on-write commit protocol");
+  ("internal/home/controlinstall.go", "disableDNSStubListener", "os.MkdirAll", 1%N,
+   "/etc/systemd/resolved.conf.d during first-run installation");
+  ("internal/home/controlinstall.go", "disableDNSStubListener", "os.WriteFile", 1%N,
+   "/etc/systemd/resolved.conf.d/adguardhome.conf, a new drop-in for systemd-resolved");
+  ("internal/home/controlinstall.go", "disableDNSStubListener", "os.Rename", 1%N,
+   "/etc/resolv.conf to /etc/resolv.conf.backup");
+  ("internal/home/controlinstall.go", "disableDNSStubListener", "os.Symlink", 1%N,
+   "/etc/resolv.conf symlink to systemd's file");
+  ("internal/home/controlinstall.go", "disableDNSStubListener", "os.Remove", 1%N,
+   "removes the drop-in just created when the symlink failed");
+  ("internal/home/home.go", "run", "os.MkdirAll", 1%N, "creates the data directory");
+  ("internal/home/home.go", "writePIDFile", "os.WriteFile", 1%N, "the PID file given with --pidfile");
+  ("internal/home/home.go", "cleanupAlways", "os.Remove", 1%N, "removes the PID file at exit");
+  ("internal/home/log.go", "configureLogger", "lumberjack.Logger", 1%N, "the log file, appended and rotated by lumberjack");
+  ("internal/home/service.go", "handleServiceUninstallCommand", "os.Remove", 2%N,
+   "launchd stdout/stderr log files on service uninstall (darwin only at run time)");
+  ("internal/filtering/filtering.go", "New", "os.MkdirAll", 1%N, "creates data/filters")
+].
 
-Definition writer_ok (w : wcall) : bool := rename_based w || excepted w.
+Definition matches (w : wcall) (e : entry) : bool :=
+  match e with (f, fn, c, _, _) =>
+    String.eqb f (w_file w) && String.eqb fn (w_func w) && String.eqb c (w_callee w) end.
+
+Definition excepted (w : wcall) : bool := existsb (matches w) exceptions.
+Definition other_file (w : wcall) : bool := existsb (matches w) other_files.
+
+Definition writer_ok (w : wcall) : bool := rename_based w || excepted w || other_file w.
+
+Definition count_ok (l : list wcall) (e : entry) : bool :=
+  match e with (_, _, _, n, _) => N.leb (N.of_nat (List.length (List.filter (fun w => matches w e) l))) n end.
+
+Definition counts_ok (l : list wcall) : bool := forallb (count_ok l) (List.app exceptions other_files).
 
 Definition has_call (l : list wcall) (file fn callee : string) : bool :=
   existsb (fun w => String.eqb file (w_file w) && String.eqb fn (w_func w) && String.eqb callee (w_callee w)) l.
@@ -54,7 +101,9 @@ Definition expected_sites : list (string * string * string) := [
   ("internal/filtering/filter.go", "finalizeUpdate", "<pending>.CloseReplace");
   ("internal/filtering/filter.go", "finalizeUpdate", "<pending>.Cleanup");
   ("internal/aghrenameio/renameio_unix.go", "newPendingFile", "renameio.NewPendingFile");
-  ("internal/aghrenameio/renameio_unix.go", "CloseReplace", "<pending>.CloseAtomicallyReplace")
+  ("internal/aghrenameio/renameio_unix.go", "CloseReplace", "<pending>.CloseAtomicallyReplace");
+  ("internal/filtering/rulelist/filter.go", "readFromHTTP", "aghrenameio.NewPendingFile");
+  ("internal/dhcpd/http_unix.go", "handleReset", "os.Remove")
 ].
 
 Definition sites_present (l : list wcall) : bool :=
